@@ -38,6 +38,9 @@ class Module:
         self.patterns = [dict(p, ast=ast.parse(p['pattern'], mode='eval').body, type=parse_type(p['type']),
                               args=[parse_type(a) for a in p['args']]) for p in sig.get('patterns', [])]
         self._loops = {}
+        self.structs = {k: {f: parse_type(t) for f, t in v['fields'].items()} for k, v in sig.get('structs', {}).items()}
+        self.struct_alias = {k: v.get('alias', {}) for k, v in sig.get('structs', {}).items()}
+        self.aliases = []
         self._cur = None
         # index of the source
         self.top = {}        # name -> node (functions, classes, assignments)
@@ -73,6 +76,12 @@ class Module:
         if c in self.components:
             return self.components[c]['var']
         return [s for s in self.slots if s['component'] == c][0]['var']
+
+    def struct_field(self, sname, var, attr, node):
+        attr = self.struct_alias[sname].get(attr, attr)
+        if attr not in self.structs[sname]:
+            raise Unsupported(node, 'field %s of %s is not in the signature file' % (attr, sname))
+        return '%s.%s' % (var, attr)
 
     def assume(self, node, text):
         item = (getattr(node, 'lineno', 0), text)
@@ -120,7 +129,7 @@ class Module:
         want = entry.get('params', {})
         if names != list(want):
             raise Unsupported(node, 'parameters of %s are %s; the signature file says %s' % (entry['py'], names, list(want)))
-        ps = [(n, parse_type(want[n])) for n in names]
+        ps = [(n, ('struct', want[n][7:]) if want[n].startswith('struct ') else parse_type(want[n])) for n in names]
         va = kw = None
         if a.vararg:
             if 'varargs' not in entry or list(entry['varargs']) != [a.vararg.arg]:
@@ -145,9 +154,23 @@ class Module:
         else:
             env.comps = {c: self.comp_var(c) for c in self.comp_order}
         for n, t in ps:
-            env.vars[n] = (cname(n), t)
-        self.raise_as_return_names = set()
+            if t[0] == 'struct':
+                env.structs[n] = t[1]
+                for f, ft in self.structs[t[1]].items():
+                    env.vars['%s.%s' % (n, f)] = ('%s_%s' % (cname(n), cname(f)), ft)
+            else:
+                env.vars[n] = (cname(n), t)
+        self.aliases = []
         return env
+
+    def coq_params(self, ps):
+        out = []
+        for n, t in ps:
+            if t[0] == 'struct':
+                out += [('%s_%s' % (cname(n), cname(f)), self.T.coq(ft, False)) for f, ft in self.structs[t[1]].items()]
+            else:
+                out.append((cname(n), self.T.coq(t, False)))
+        return out
 
     def result_type(self, ctx):
         R = self.T.coq(ctx.ret, False)
@@ -176,27 +199,58 @@ class Module:
         if [ast.unparse(d) for d in node.decorator_list] != want_dec:
             raise Unsupported(node, 'decorators of %s' % q)
         ps, va, kw = self.params_of(entry, node, method)
-        ret = parse_type(entry['ret'])
         self._cur = entry
         env = self.new_env(entry, ps)
-        for n, t in ps:
-            if self.T.table.get(t[0], {}).get('raise_as_return'):
-                pass
+        if 'result' in entry:
+            ret = ('tuple',) + tuple(env.vars[r][1] for r in entry['result'])     # the final values of these fields
+        else:
+            ret = parse_type(entry['ret'])
         eff = effects(self, node.body, env)
         if entry.get('state') == 'record' and eff.writes:
             raise Unsupported(node, '%s writes %s but the signature file passes it the read-only record' % (q, eff.writes))
         ctx = Ctx(self, [c for c in self.comp_order if c in eff.writes], eff.exc, ret)
         if len(ctx.state) > 1:
             raise Unsupported(node, '%s writes more than one state component' % q)
-        body = block(node.body, env, ctx, lambda e: ctx.end(e, node))
+        if 'result' in entry:
+            def tail(e):
+                vals = [e.vars[r] for r in entry['result']]
+                if ('tuple',) + tuple(t for _, t in vals) != ret:
+                    raise Unsupported(node, 'result %s has type %s, the signature file says %s' % (entry['result'], [t for _, t in vals], ret))
+                for local, field, at in self.aliases:
+                    # a local bound to a struct field is an alias in Python: fine only if the field is
+                    # reassigned from somewhere before the end (then the alias never shows)
+                    if not any(isinstance(n, ast.Attribute) and isinstance(n.ctx, ast.Store) and isinstance(n.value, ast.Name)
+                               and '%s.%s' % (n.value.id, self.struct_alias[e.structs[n.value.id]].get(n.attr, n.attr)) == field
+                               for n in ast.walk(node)):
+                        raise Unsupported(at, 'local %s aliases %s, which is written through the alias but never reassigned' % (local, field))
+                return ctx.ret_(e, '(%s)' % ', '.join(v for v, _ in vals), node)
+        else:
+            tail = lambda e: ctx.end(e, node)
+        body = block(node.body, env, ctx, tail)
         sp, reads = self.state_params(env, entry)
         for w in ctx.state:
             if w not in reads:
                 raise Unsupported(node, 'internal: written component %s is not a parameter' % w)
-        params = ''.join(' (%s : %s)' % (n, t) for n, t in sp + [(cname(n), self.T.coq(t, False)) for n, t in ps])
+        params = ''.join(' (%s : %s)' % (n, t) for n, t in sp + self.coq_params(ps))
         self.emit_def(entry['coq'], params, self.result_type(ctx), body, node)
         self.funs[q] = FnInfo(q, entry['coq'], ps, reads, list(ctx.state), ctx.exc, ret,
                               entry.get('state') == 'record' and bool(sp), va, kw)
+
+    def do_loop_body(self, entry):
+        """only the body of one loop nested in a function that is otherwise not translated"""
+        node = self.find(entry['py'])
+        loop = node
+        for i in entry['loop_path']:
+            fors = [x for x in loop.body if isinstance(x, ast.For)]
+            if i >= len(fors):
+                raise Unsupported(loop, 'loop path %s of %s no longer exists' % (entry['loop_path'], entry['py']))
+            loop = fors[i]
+        self._cur = entry
+        env = Env(self)
+        for n, t in entry['locals'].items():
+            env.vars[n] = (cname(n), parse_type(t))
+        from stmt import for_stmt
+        for_stmt(loop, env, Ctx(self, [], False, ('unit',)), lambda e: 'tt')
 
     def do_const(self, entry):
         """class-level constant: frozenset / list / tuple of string constants"""
@@ -409,6 +463,8 @@ class Module:
     def check_coverage(self):
         """every top-level statement of the source must be accounted for"""
         sig = self.sig
+        if sig.get('coverage') == 'listed-functions-only':
+            return
         covered = {e['py'] for e in sig['emit'] if 'py' in e}
         pinned = sig.get('pinned', {})
         for n in self.tree.body:
@@ -473,8 +529,13 @@ class Module:
                 '   dominated by a membership test of the same key: %s lines %s.' % (
                     sig['source'].split('/')[-1], ', '.join(map(str, unguarded)) or 'none'),
                 '   Assumptions made by translation rules:']
+        grouped = {}
         for l, t in sorted(self.assumptions):
-            head.append('     %s:%d %s' % (sig['source'].split('/')[-1], l, t))
+            grouped.setdefault(t, []).append(l)
+        for t, ls in sorted(grouped.items(), key=lambda kv: kv[1]):
+            head.append('     %s:%s %s' % (sig['source'].split('/')[-1], ','.join(map(str, ls)), t))
+        if not grouped:
+            head.append('     none')
         head[-1] += ' *)'
         return '\n'.join(head) + '\n' + '\n'.join(sig['header']) + '\n\n' + '\n\n'.join(self.out) + '\n'
 
